@@ -6,3 +6,7 @@ import SoxrModel.Properties.C12Fir
 #print axioms Soxr.Properties.C12Engine.fir_engine_superposition
 #print axioms Soxr.Properties.C12Engine.fir_engine_homogeneity
 #print axioms Soxr.Properties.C12Engine.dot_scaled_table
+#print axioms Soxr.Properties.C12Engine.dot_const
+#print axioms Soxr.Properties.C12Engine.ufix_of_rows
+#print axioms Soxr.Properties.C12Engine.dc_gain_runs
+#print axioms Soxr.Cr.coneS_const
